@@ -10,7 +10,7 @@ from pymbolic import var
 
 def kinds_universe():
     return [None, D.Boolean(), D.Integer(), D.Scalar(True), D.Scalar(False),
-            D.Array(True), D.Array(False), D.UserType("a"), D.UserType("b")]
+            D.Array(True), D.Array(False), D.UserType("a"), D.UserType("b"), D.UserType("A")]
 
 
 def enc(k):
@@ -145,7 +145,7 @@ def build(phases_desc):
     return phases
 
 
-def infer(phases_desc, perm_seed):
+def infer(phases_desc, perm_seed, one_shot=False):
     rng = random.Random(perm_seed)
     phases = build(phases_desc)
     names = ["ph%d" % i for i in range(len(phases))]
@@ -156,7 +156,8 @@ def infer(phases_desc, perm_seed):
             rng.shuffle(p)
     finder = D.SymbolKindFinder(registry())
     try:
-        tbl = finder([names[i] for i in order], [phases[i] for i in order])
+        # "a list of iterables": a phase may be handed in as a one-shot iterator (the Fortran generator does)
+        tbl = finder([names[i] for i in order], [(iter(phases[i]) if one_shot else phases[i]) for i in order])
     except Exception as ex:
         return ("fail", type(ex).__name__)
     per = {pn: dict(sorted((k, repr(v)) for k, v in t.items())) for pn, t in tbl.per_phase_table.items()
@@ -210,7 +211,7 @@ def replay(inp):
         d = dag_order_failure(inp["phases"])
         return {"fails": d is not None, "detail": d}
     if inp.get("kind") == "order2":
-        d = order2_failure(inp["phases_a"], inp["phases_b"])
+        d = order2_failure(inp["phases_a"], inp["phases_b"], one_shot=bool(inp.get("one_shot")))
         return {"fails": d is not None, "detail": d}
     return {"error": "unknown input kind"}
 
@@ -243,9 +244,9 @@ def dag_order_failure(phases_desc):
     return None
 
 
-def order2_failure(desc_a, desc_b):
-    """the same statements presented in two explicit orders"""
-    a, b = infer(desc_a, 0), infer(desc_b, 0)
+def order2_failure(desc_a, desc_b, one_shot=False):
+    """the same statements presented in two explicit orders (the second one as one-shot iterators if asked)"""
+    a, b = infer(desc_a, 0), infer(desc_b, 0, one_shot=one_shot)
     if a[0] == "ok" and b[0] == "ok" and a != b:
         return "table differs between two presentation orders of the same statements: %r vs %r" % (a[1:], b[1:])
     if a[0] != b[0]:
@@ -327,6 +328,13 @@ def bounded(payload):
             if d and sum(1 for f in failures if f["oracle"] == "order-independence(chain)") < 3:
                 failures.append({"oracle": "order-independence(chain)",
                                  "input": {"kind": "order2", "phases_a": [stmts], "phases_b": [other]}, "detail": d})
+            # the same order once more, each phase handed in as a one-shot iterator
+            evals += 1
+            d = order2_failure([stmts], [other], one_shot=True)
+            if d and sum(1 for f in failures if f["oracle"] == "order-independence(chain, one-shot iterables)") < 3:
+                failures.append({"oracle": "order-independence(chain, one-shot iterables)",
+                                 "input": {"kind": "order2", "phases_a": [stmts], "phases_b": [other], "one_shot": True},
+                                 "detail": d})
     distinct.add(("chains", nchain))
     # infer_kinds on DAGs with 2-3 phases whose local variables have different kinds, phases dict filled in every order
     ndag = 0
@@ -348,14 +356,14 @@ def bounded(payload):
         if r.get("fails"):
             known_hits.append("%s: %s" % (e["id"], e["what"]))
     return {"evaluations": evals, "distinct_nontrivial": len(distinct),
-            "rule": "exhaustive: 9 kinds (None, Boolean, Integer, Scalar x2, Array x2, UserType a/b), all pairs for "
+            "rule": "exhaustive: 10 kinds (None, Boolean, Integer, Scalar x2, Array x2, UserType a/b/A), all pairs for "
                     "idempotence/commutativity and all triples for associativity on the real unify; plus %d seeded "
                     "random programs (<=2 phases, <=6 assignments over 6 names, 7 fixed-kind sources) inferred in 4 "
                     "presentation orders; plus refinement chains (a variable assigned two unifiable kinds, copied down a "
-                    "chain of <=3 links; 7 kind pairs) in all (<=120) or every 5th (720) presentation orders; distinct = "
+                    "chain of <=3 links; 7 kind pairs) in all (<=120) or every 5th (720) presentation orders, each as lists and as one-shot iterators; distinct = "
                     "distinct argument tuples / programs on which inference succeeded" % nprog,
-            "bound": "kind universe with 2 user-type identifiers; programs <= 12 statements",
+            "bound": "kind universe with 3 user-type identifiers (two differing in case only); programs <= 12 statements",
             "samples": samples, "failures": failures[:20], "known_hits": known_hits,
-            "parts": {"law_cases": 9 * 9 * 2 + 9 ** 3, "programs": nprog, "refinement_chain_orders": nchain, "programs_inferred": nontrivial,
+            "parts": {"law_cases": len(Ks) ** 2 * 2 + len(Ks) ** 3, "programs": nprog, "refinement_chain_orders": nchain, "programs_inferred": nontrivial,
                       "programs_with_known_D5_fingerprint": d5},
             "exhaustive": False}
